@@ -101,6 +101,14 @@ package builder
 //@ emits [C01,C07] "PopStateSym(%d)" arg1 == len(b.vnode.G.ProductoinRules[i].RighPart)
 //@ loop 0: invariant 1 <= i
 
+// TypeScript translate(): exactly the terminals get a case, token code -> symbol id (same numbers as the Go builder)
+//@ func (*TsBuilder).buildTranslate
+//@ props C11 C06 C08 C01 C02
+//@ requires b != nil && wfBuilder(b.vnode)
+//@ emits [C11,C06,C08,C01,C02] "\tcase %d:\n \tconv = %d;\nbreak;\n" arg1 == sy.Value
+//@ emits [C11,C06,C08,C01,C02] "\tcase %d:\n \tconv = %d;\nbreak;\n" arg2 == sy.ID
+//@ emits [C11,C06,C08,C01,C02] "\tcase %d:\n \tconv = %d;\nbreak;\n" assert !sy.IsNonTerminator
+
 //@ func (*TsBuilder).buildReduceFunc
 //@ props C01 C07 C08
 //@ requires b != nil && wfBuilder(b.vnode)
@@ -113,14 +121,14 @@ package builder
 
 // C11 / C17: the code-to-symbol switch and the two trace tables
 //@ func (*TemplateBuilder).buildTranslate
-//@ props C11 C17
+//@ props C11 C17 C06 C01 C02
 //@ requires b != nil && wfBuilder(b.vnode) && len(b.vnode.rules) + 1 == len(b.vnode.G.ProductoinRules)
 //@ requires forall i int :: 0 <= i && i < len(b.vnode.rules) ==> b.vnode.rules[i] != nil && b.vnode.rules[i].LeftPart != nil &&
 //@     (forall k int :: 0 <= k && k < len(b.vnode.rules[i].RighPart) ==> b.vnode.rules[i].RighPart[k] != nil)
 // translate: exactly the terminals get a case, token code -> symbol id
-//@ emits [C11] "\tcase %d:\n \tconv = %d\n" arg1 == sy.Value
-//@ emits [C11] "\tcase %d:\n \tconv = %d\n" arg2 == sy.ID
-//@ emits [C11] "\tcase %d:\n \tconv = %d\n" assert !sy.IsNonTerminator
+//@ emits [C11,C06,C01,C02] "\tcase %d:\n \tconv = %d\n" arg1 == sy.Value
+//@ emits [C11,C06,C01,C02] "\tcase %d:\n \tconv = %d\n" arg2 == sy.ID
+//@ emits [C11,C06,C01,C02] "\tcase %d:\n \tconv = %d\n" assert !sy.IsNonTerminator
 // TraceTranslate: symbol id -> display name
 //@ emits [C17] `conv = \"%s\"` arg1 == sy.ID
 //@ emits [C17] `conv = \"%s\"` arg2 == parser.RemoveTempName(sy.Name)
